@@ -25,10 +25,30 @@ def run(rep, tier, seed):
         conf = confs[i % len(confs)]
         if conf[0].startswith("fat32") and tier == "quick" and i % 3:
             conf = confs[rng.below(3)]
-        s = sessions.gen_session(rng, conf, 40)
-        s[0] = "dev %d 209" % conf[1]
-        vol_bytes = int(conf[2].split()[2]) * int(conf[2].split()[1])
-        s += ["drop_all", "unmount", "dump %d %d" % (vol_bytes, conf[1] - vol_bytes)]
+        label, size, fmt = conf
+        g = sessions.Gen(rng, True, True)
+        toks = fmt.split()
+        g.cluster = int(toks[1]) if toks[3] == "-" else int(toks[3])
+        while len(g.lines) < 40:
+            g.step()
+        s = ["dev %d 209" % size, "wlog 0", fmt, "pages", "wlog 1", "mount 1 0 lossy"] + g.lines
+        vol_bytes = int(toks[2]) * int(toks[1])
+        # second phase: a clean mount whose FIRST device writes are entry write-backs (time stamps set explicitly, or the
+        # access date through reads with the option on), before any structural change of the session
+        s += ["drop_all", "unmount", "clock 2031 7 8 9 10 12 0", "mount 1 1 lossy"]
+        h = 700
+        for pth in sorted(g.files)[:3]:
+            h += 1
+            s += ["open_file 0 %s %d" % (sessions.hexs("/".join(pth)), h)]
+            k = rng.below(3)
+            if k == 0: s += ["set_modified %d 2033 3 4 5 6 8 0" % h, "flush %d" % h]
+            elif k == 1: s += ["read %d 10" % h, "set_created %d 2001 1 2 3 4 5 60" % h]
+            else: s += ["set_accessed %d 2040 5 6" % h]
+            s += ["drop_file %d" % h]
+        for pth in sorted(q for q in g.dirs if q)[:2]:
+            h += 1
+            s += ["open_dir 0 %s %d" % (sessions.hexs("/".join(pth)), h), "list %d" % h, "drop_dir %d" % h]
+        s += ["drop_all", "unmount", "dump %d %d" % (vol_bytes, size - vol_bytes)]
         scripts.append(s); metas.append((conf, vol_bytes))
     judged = sessions.run_judged(scripts, flags=("tree", "regions"), shards=16)
     nwrites = 0
